@@ -729,7 +729,7 @@ def _type_kind(v):
 def _nan_key(c, o, site):
     """the known degenerate configurations get their own key; everything else is the generic one"""
     algo = c.get("algo")
-    if algo == "boss" and c["L"] == c.get("params", {}).get("min_window", 10) - 1 and o.get("n_estimators") == 0:
+    if algo in ("boss", "cboss", "tde") and c["L"] == c.get("params", {}).get("min_window", 10) - 1 and o.get("n_estimators") == 0:
         return site + ":nan-proba:series_length=min_window-1"
     if algo in ("cboss", "tde") and o.get("accuracies") and all(a == 0 for a in o["accuracies"]):
         return site + ":nan-proba:all-members-zero-train-accuracy"
@@ -1234,12 +1234,10 @@ def gen_cases(tier, rng):
         L = rng.randrange(1, 40)
         cases.append({"kind": "tsfit", "L": L, "m": rng.choice([None, None, 0, 1, 2, 3, 4, 7, L, L + 1]), "nest": rng.randrange(1, 5),
                       "n": rng.randrange(2, 6), "rs": rng.randrange(1 << 20), "xseed": rng.randrange(1 << 20), "reg": rng.random() < 0.25})
-    # the degenerate configurations (known findings) and malformed stream
-    cases.append({"kind": "clf", "algo": "boss", "labels": [0, 1, 0, 1, 0, 1], "ytest": [0, 1], "xseed": 5, "rs": 0, "L": 9, "params": {}})
-    cases.append({"kind": "clf", "algo": "cboss", "labels": [0, 1], "ytest": [0, 1], "xseed": 6, "rs": 0, "L": 12,
-                  "params": {"n_parameter_samples": 4, "max_ensemble_size": 2}})
-    for s in range(3 if q else 12):
-        cases.append({"kind": "clf", "algo": "stsf", "labels": [0, 1, 0, 1], "ytest": [0, 1], "xseed": 7 + s, "rs": s, "L": 16,
+    # STSF on tiny balanced panels: some bootstrap bag misses a class (known finding); the other
+    # degenerate configurations live in corpus/C17
+    for s_ in range(3 if q else 12):
+        cases.append({"kind": "clf", "algo": "stsf", "labels": [0, 1, 0, 1], "ytest": [0, 1], "xseed": 7 + s_, "rs": s_, "L": 16,
                       "params": {"n_estimators": 10}})
     return cases
 
